@@ -68,6 +68,59 @@ func verifExact(prs diags.PositionRanges, line, col, n int, what string) {
 	}
 }
 
+// VerifHarness_ParseRuleLast: the field under test is `for` or `keep_firing_for` (parameter field: 1 / 2) and is the LAST
+// key of the rule (post = 0, no labels), after `alert: foo` and `expr: up` (pre = 2): its positions are the generator's
+// places and the rule's line range ends on the last line of its value, whatever its scalar style.
+func VerifHarness_ParseRuleLast() {
+	verifExtra = nil
+	verifKey = []string{"expr", "for", "keep_firing_for"}[verifParam("field")]
+	verifPre = [2]string{"alert", "foo"}
+	verifPreList = [][2]string{{"alert", "foo"}, {"expr", "up"}}
+	defer func() { verifPreList = nil }()
+	L := verifGen()
+	verifAssume(!L.headHit)
+	key, val := verifParse(L)
+	if key == nil {
+		return
+	}
+	verifObserve("value", val.Value)
+	verifObserve("line", val.Line)
+	offL, offC := verifParam("offl"), verifParam("offc")
+	rule, isEmpty := parseRule(verifRoot, offL, offC, L.lines)
+	verifAssert(!isEmpty, "parseRule finds the rule")
+	verifAssert(rule.Error.Err == nil, "parseRule accepts the rule")
+	if isEmpty || rule.Error.Err != nil || rule.AlertingRule == nil {
+		return
+	}
+	verifReach("end")
+	ar := rule.AlertingRule
+	node := ar.For
+	if verifParam("field") == 2 {
+		node = ar.KeepFiringFor
+	}
+	verifAssert(node != nil, "the field is parsed")
+	if node == nil {
+		return
+	}
+	verifAssert(node.Value == L.value, "field value is the node value")
+	for i := range node.Pos {
+		node.Pos[i].Line = verifConcretize(node.Pos[i].Line, -2, len(L.lines)+offL+2)
+		node.Pos[i].FirstColumn = verifConcretize(node.Pos[i].FirstColumn, -2, 40)
+		node.Pos[i].LastColumn = verifConcretize(node.Pos[i].LastColumn, -2, 40)
+	}
+	n := verifLen(node.Pos)
+	verifAssert(n >= L.content, "field: every value character up to the last non-newline one has a position")
+	verifAssert(n <= len(L.places), "field: no more positions than value characters")
+	for j := 0; j < len(L.places); j++ {
+		valid, gl, gc := verifNth(node.Pos, j)
+		verifAssert(verifOr(!valid, verifAnd(gl == L.places[j].line+offL, gc == L.places[j].col+offC)), "field: position j is the place of value byte j, shifted by the offsets")
+	}
+	verifAssert(rule.Lines.First == 1+offL, "rule lines start at the first key")
+	verifAssert(rule.Lines.Last == len(L.lines)+offL, "rule lines end at the last line of the last field")
+	fl := node.Pos.Lines()
+	verifAssert(verifAnd(rule.Lines.First <= fl.First, fl.Last <= rule.Lines.Last), "rule lines enclose the positions of the last field")
+}
+
 func VerifHarness_ParseRule() {
 	verifExtra = nil // the native replay runs several cases in one process
 	verifKey = "expr"
